@@ -559,6 +559,10 @@ def run(prog, rep, tier):
     rep.rule('ACCUM-mixed', 'a container that accumulates contributions in a loop is not also '
              'overwritten there')
     check_mixed_accumulation(prog, rep, ['tenpy/networks/mps.py'])
+    from ..flow import check_site_index_offset
+    rep.rule('SITE-index-offset', 'in functions with an `i_offset`, every site lookup includes it')
+    if check_site_index_offset(prog, rep, ['tenpy/networks/mps.py']) < 2:
+        raise AnalysisError('SITE-index-offset: site lookups of _term_to_ops_list not found')
     return rep.finish(
         level='other',
         explanation='Coupled-update order of the per-site lists (%d transformation functions), '
